@@ -3,6 +3,7 @@ import XeofsProofs.Lemmas.FullSVD
 import XeofsProofs.Lemmas.Recon
 import XeofsProofs.Lemmas.EckartYoung
 import XeofsProofs.Lemmas.Sign
+import XeofsModel.Generated.Facts
 /-!
 # C01 — EOF-type modes are the exact eigen-decomposition of the preprocessed data
 
@@ -130,5 +131,9 @@ example : XP.SVD.IsSVD (!![2, 0; 0, 1; 0, 0] : Matrix (Fin 3) (Fin 2) ℝ) !![1,
   hX := by ext i j; fin_cases i <;> fin_cases j <;> simp [Matrix.mul_apply, Fin.sum_univ_two, Matrix.diagonal, Matrix.of_apply, Matrix.vecHead, Matrix.vecTail]
   nonneg := by intro i; fin_cases i <;> simp
   anti := by intro a b hab; fin_cases a <;> fin_cases b <;> simp_all
+
+/-- source obligation (HilbertEOF): the spurious mean that padding introduces in the imaginary part is removed per feature
+(along the sample axis), so every column of the analytic signal keeps the mean of the real data -/
+theorem src_hilbert_recentres_per_feature : Gen.hilbertRecentreMeanArgs = "axis=0" := by decide
 
 end C01
